@@ -1,4 +1,4 @@
-package main
+package c04
 
 import (
 	"strings"
